@@ -404,8 +404,9 @@ def r5_8(cx):
         mc = [(c.pos, E('binop', op='Add', a=c.arg(0), b=E('const', info={'int': 1, 'ty': 'usize'}))) for c in mr.calls(AN + '::increment_count')]
     okmc = len(mc) == 1 and mc[0][1].kind == 'binop' and mc[0][1].op == 'Add' and mc[0][1].b.is_const_int(1) and \
         any(v is True and e.strip().kind == 'call' and e.strip().op.endswith('ptr_eq') and len(e.strip().args) == 2
-            and any(n.kind == 'proj' and n.info.get('n') == 'chunk' for n in e.strip().args[0].walk()) and 1 in e.strip().args[0].params()
-            and e.strip().args[1].strip().kind == 'param' and e.strip().args[1].strip().info['i'] == 2
+            and any(any(n.kind == 'proj' and n.info.get('n') == 'chunk' for n in x.walk()) and 1 in x.params()
+                    and y.strip().kind == 'param' and y.strip().info['i'] == 2
+                    for x, y in ((e.strip().args[0], e.strip().args[1]), (e.strip().args[1], e.strip().args[0])))   # ptr_eq is symmetric
             for e, v, ed in mr.facts_at(mc[0][0].bb))
     cx.check(okmc, 'merge-same-chunk-only', mr, None, 'merge_ref_or_create bumps an existing anchor only where Arc::ptr_eq(anchor.chunk, chunk) held', fail_detail='an existing anchor is reused for a different chunk')
     # exact count arithmetic of the three count methods
